@@ -24,7 +24,7 @@ MANIFEST = {
     'note': 'EST_IDX_NA = 0 doubles as "no link" and as the index of the first fake node; aggregate pushes of the start nodes are therefore not paired.',
 }
 EXPLANATION = 'Reciprocal link-store pairing and seed / duration / propagation terms of the estimated-time network construction.'
-RULES = ['C15-1.reciprocal', 'C15-2.seed', 'C15-3.duration', 'C15-4.propagation', 'C15-5.origins', 'C15-6.events', 'C15-7.options', 'C15-8.swap', 'C15-9.helpers', 'C15-10.join']
+RULES = ['C15-1.reciprocal', 'C15-2.seed', 'C15-3.duration', 'C15-4.propagation', 'C15-5.origins', 'C15-6.events', 'C15-7.options', 'C15-8.swap', 'C15-9.helpers', 'C15-10.join', 'C15-11.backward']
 ASSUMPTIONS = []
 
 
@@ -97,6 +97,7 @@ def run(ctx):
     events(ctx)
     options(ctx)
     swaps(ctx)
+    backward(ctx)
     seeds(ctx)
     duration(ctx)
     propagation(ctx)
@@ -417,6 +418,61 @@ def options(ctx):
     r = an.ret()
     ok = r[0] == 'ok' and r[1][0] == 'tuple' and r[1][1][0] == 'loopvar'
     ctx.check(ok, R, 'get_link_idx_options|result', 'the returned set is the set built by the search', 'returns %s' % show(r, an.names)[:120], w)
+
+
+def backward(ctx):
+    """C15-11.backward: the chain walk of the backward pass.  A chain popped from the queue carries its backward shift (time_sub):
+    every node of the chain is moved by that shift, the walk follows the PRIMARY predecessor, an alternate predecessor met on the
+    way is queued with its own slack (its scheduled time minus the time of the node it joins), and a chain that stops at a split
+    is queued again with the SAME shift it was popped with."""
+    R = 'C15-11.backward'
+    b = fn(ctx, 'update_times_backward')
+    if b is None:
+        ctx.unproved(R, 'update_times_backward', 'anchor not found'); return
+    eng = engine(ctx)
+    eng.all_paths.add(b.fid)
+    an = eng.analysis(b)
+    if an.exit_state is None:
+        ctx.unproved(R, 'update_times_backward', 'not analysable', ctx.where(b)); return
+    w = ctx.where(b)
+    news = [c for c in an.calls if c.targets and any(t.endswith('EstTimePrev::new') for t in c.targets) and c.in_loop and c.argvals and len(c.argvals) == 3]
+    if len(news) != 2:
+        ctx.unproved(R, 'update_times_backward|queue entries', 'expected two in-loop EstTimePrev::new sites (alternate predecessor, re-queued chain), found %d' % len(news), w); return
+    popped = lambda t: t[0] == 'proj' and t[2] == ('f', 'time_sub') and 'BinaryHeap::pop' in repr(t[1])
+    alt = [c for c in news if c.argvals[2][0] in ('proj', 'pre') and repr(c.argvals[2]).rstrip(')').endswith("'idx_prev_alt'")]
+    req = [c for c in news if c not in alt]
+    if len(alt) != 1 or len(req) != 1:
+        ctx.unproved(R, 'update_times_backward|queue entries', 'could not tell the alternate-predecessor entry from the re-queued chain', w); return
+    a, r = alt[0], req[0]
+    t0, t1, t2 = a.argvals
+    oka = t1[0] == 'sub' and t1[2] == t0 and any(x == t2 for x in walk(t1[1])) and repr(t1[1]).rstrip(')').endswith("'time_sched'") and repr(t0).rstrip(')').endswith("'time_sched'")
+    ctx.check(oka, R, 'update_times_backward|alternate slack', 'an alternate predecessor is queued at the time of the node it joins, with its own slack (its time − that time)',
+              'queued with (%s, %s)' % (show(t0, an.names)[:100], show(t1, an.names)[:140]), ctx.where(b, a.span))
+    ctx.check(popped(r.argvals[1]), R, 'update_times_backward|re-queued shift', 'a chain that stops at a split is queued again with the shift it was popped with',
+              're-queued with shift %s' % show(r.argvals[1], an.names)[:140], ctx.where(b, r.span))
+    cur = r.argvals[2]
+    if cur[0] != 'loopvar':
+        ctx.unproved(R, 'update_times_backward|walk', 'the re-queued node is not the walk cursor: %s' % show(cur, an.names)[:100], w); return
+    H = cur[1]
+    backs = an.loop_back.get(H, [])
+    okp = bool(backs)
+    seen = ''
+    for st in backs:
+        nv = an.load(cur[2], st)
+        seen = show(nv, an.names)[:140]
+        lv = []
+        def _leaves(t):
+            if t[0] == 'gamma':
+                _leaves(t[2]); _leaves(t[3])
+            else:
+                lv.append(t)
+        _leaves(nv)
+        okp = okp and bool(lv) and all(x[0] == 'proj' and x[2] == ('f', 'idx_prev') and any(y == cur for y in walk(x[1])) for x in lv)
+    ctx.check(okp, R, 'update_times_backward|walk', 'the walk moves to idx_prev (the PRIMARY predecessor) of the node just shifted', 'the cursor becomes %s' % seen, w)
+    # every node of the chain is moved by the popped shift
+    st_ = [(bb, v, span) for bb, path, v, span in an.stores_log if path and path[-1] == ('f', 'time_sched') and v[0] == 'sub' and popped(v[2])]
+    ctx.check(bool(st_), R, 'update_times_backward|shift', 'each node of the chain is moved back by the shift the chain was popped with',
+              'no store time_sched := time_sched − popped time_sub', w)
 
 
 def swaps(ctx):
